@@ -84,15 +84,19 @@ func newScopeRegistryWithShardCount(
 		sanitizedGaugeCardinalityName:     root.sanitizer.Name(gaugeCardinalityName),
 		sanitizedHistogramCardinalityName: root.sanitizer.Name(histogramCardinalityName),
 		sanitizedScopeCardinalityName:     root.sanitizer.Name(scopeCardinalityName),
-		cardinalityMetricsTags: map[string]string{
-			"version":  Version,
-			"host":     DefaultTagRedactValue,
-			"instance": DefaultTagRedactValue,
-		},
+		cardinalityMetricsTags:            make(map[string]string, len(cardinalityMetricsTags)+3),
 	}
 
-	for k, v := range cardinalityMetricsTags {
-		r.cardinalityMetricsTags[root.sanitizer.Key(k)] = root.sanitizer.Value(v)
+	// n.b. The defaults go through the sanitizer like every other tag.
+	defaultTags := map[string]string{
+		"version":  Version,
+		"host":     DefaultTagRedactValue,
+		"instance": DefaultTagRedactValue,
+	}
+	for _, tags := range []map[string]string{defaultTags, cardinalityMetricsTags} {
+		for k, v := range tags {
+			r.cardinalityMetricsTags[root.sanitizer.Key(k)] = root.sanitizer.Value(v)
+		}
 	}
 
 	for i := uint(0); i < shardCount; i++ {
